@@ -350,6 +350,22 @@ func checkC12(c *km.Ctx) {
 	checkVerifierListFresh(c, s, "R-C12-1")
 
 	checkPublishedJWK(c, "R-C12-4")
+	// "the access token makes userinfo return that same user, and nothing else does": what the userinfo endpoint
+	// honours is a verified, unexpired token of the access-token kind for this server - C04's obligations on
+	// that consumer, as this property's own (an authorization code presented there names the user without any
+	// client authentication)
+	if r.Remap == nil {
+		r.Remap = func(rule, fn, construct string) (string, bool) {
+			if strings.HasPrefix(rule, "R-C04-") && strings.Contains(fn, "idpOpenIDCUserinfoHandler") {
+				return "R-C12-4", true
+			}
+			return "", false
+		}
+		saveExplain, saveND, saveAs := r.Explain, r.NotDecided, r.Assume
+		checkC04(c)
+		r.Explain, r.NotDecided, r.Assume = saveExplain, saveND, saveAs
+		r.Remap = nil
+	}
 	// ---- R-C12-4 provenance
 	prov := func(fn *ssa.Function, typ, field, req string, pred func(v ssa.Value) bool) {
 		sts := storesByField(fn, typ)[field]
